@@ -1,7 +1,10 @@
 // C11 (b) — rapidcheck over json::value trees built through the API, grammar-generated documents (+ one single-byte edit) and
 // typed extraction.  Reference parser / oracle / generator: c11_ref.h.
 //   roundtrip : build a tree through the public API (three construction routes), save it compact/readable, to a string and to streams
-//               imbued with a ','-decimal grouping locale (and under such a *global* locale); the text must be a strict RFC 8259
+//               imbued with a locale assembled from custom facets (numpunct: decimal point . , other x separator x grouping x true/false
+//               names; optionally a digit-mangling ctype and a num_put that prints '#'), via save(ostream), operator<< and - in a dedicated
+//               unit - save() to a string under such a *global* locale; the stream's locale must be the same object afterwards; every
+//               combination is also run once over a fixed tree (--grid); the text must be a strict RFC 8259
 //               document (independent parser) that carries the same strings and the same numbers to within 16 significant digits,
 //               cppcms must read it back to exactly what the reference reads, and from the second round on everything is exact.
 //   docs      : documents printed from a generated tree with free choices of blanks, escape spelling (short, \uXXXX, surrogate pairs,
@@ -33,9 +36,15 @@ struct RcSrc {
 
 // ---- cases -----------------------------------------------------------------------------------------------------------------------
 struct RT {
-    std::string model; int how = 0, loc = 0; unsigned long long route = 0;
-    void encode(vr::CaseWriter &w) const { w.s(model).i(how).i(loc).u(route); }
-    static RT decode(vr::CaseReader &r) { RT c; c.model = r.s(); c.how = (int)r.i(); c.loc = (int)r.i(); c.route = r.u(); return c; }
+    std::string model; int how = 0;
+    int loc = 0;           // 0 classic stream, 1 stream imbued with `sp`, 2 the same plus `sp` as the *global* locale around save()/load()
+    LocSpec sp;
+    unsigned long long route = 0;
+    void encode(vr::CaseWriter &w) const { w.s(model).i(how).i(loc).i(sp.dp).i(sp.ts).i(sp.grp).i(sp.names).i(sp.extra).u(route); }
+    static RT decode(vr::CaseReader &r) {
+        RT c; c.model = r.s(); c.how = (int)r.i(); c.loc = (int)r.i();
+        c.sp.dp = (int)r.i(); c.sp.ts = (int)r.i(); c.sp.grp = (int)r.i(); c.sp.names = (int)r.i(); c.sp.extra = (int)r.i(); c.route = r.u(); return c;
+    }
 };
 struct DC {
     std::string doc; int expect = 0; std::string model;
@@ -111,11 +120,11 @@ struct Builder {
 
 struct GlobalLocale {   // RAII: a hostile *global* C++ locale around one library call (streams created inside pick it up)
     bool on; std::locale old;
-    explicit GlobalLocale(bool enable) : on(enable) { if (on) old = std::locale::global(comma_locale()); }
+    GlobalLocale(bool enable, std::locale const &l) : on(enable) { if (on) old = std::locale::global(l); }
     ~GlobalLocale() { if (on) std::locale::global(old); }
 };
 
-struct TreeFacts { bool nonascii = false, control = false, astral = false, nonint = false, denormal = false, big = false, negzero = false; int strings = 0, numbers = 0; };
+struct TreeFacts { int groupable = 0, exponent_or_small = 0; bool nonascii = false, control = false, astral = false, nonint = false, denormal = false, big = false, negzero = false; int strings = 0, numbers = 0; };
 static void facts(Node const &n, TreeFacts &f) {
     auto str = [&f](std::string const &s) {
         f.strings++;
@@ -128,6 +137,7 @@ static void facts(Node const &n, TreeFacts &f) {
         if (n.n != 0 && std::fabs(n.n) < DBL_MIN) f.denormal = true;
         if (std::fabs(n.n) > 9007199254740992.0) f.big = true;
         if (n.n == 0 && std::signbit(n.n)) f.negzero = true;
+        if (groupable(n.n)) f.groupable++; else f.exponent_or_small++;
     }
     for (auto &c : n.a) facts(c, f);
     for (auto &kv : n.o) { str(kv.first); facts(kv.second, f); }
@@ -142,10 +152,27 @@ static Outcome p_roundtrip(RT const &c) {
     V_CHECK(undump(c.model, M), "harness:bad-case", "model dump unreadable");
     int depth = depth_of(M);
     TreeFacts tf; facts(M, tf);
-    if (depth >= 2 && (tf.nonascii || tf.nonint)) VR.nontrivial(vr::fnv(c.model, 1102 + c.how * 7 + c.loc));
+    bool nonclassic = c.loc != 0 && !c.sp.is_classic_like();
+    // non-trivial: a locale that differs from classic AND a number with >= 4 integer digits written without exponent (what grouping touches);
+    // under the classic locale: depth >= 2 and a non-ASCII string or a non-integer number
+    if (c.loc != 0 ? (nonclassic && tf.groupable > 0) : (depth >= 2 && (tf.nonascii || tf.nonint)))
+        VR.nontrivial(vr::fnv(c.model, 1102 + c.how * 7 + c.loc * 13 + c.sp.dp * 101 + c.sp.ts * 1009 + c.sp.grp * 10007 + c.sp.names * 100003 + c.sp.extra * 1000003));
+    if (nonclassic && tf.groupable > 0) VR.cls("nt.nonclassic-locale+grouped-number");
+    if (tf.groupable) VR.cls("tree.number-4..16-integer-digits"); if (tf.exponent_or_small) VR.cls("tree.number-exponent-or-below-1000");
     VR.cls(depth == 0 ? "tree.depth0" : depth == 1 ? "tree.depth1" : depth <= 8 ? "tree.depth2-8" : depth < 500 ? "tree.depth9-499" : depth < 512 ? "tree.depth500-511" : "tree.depth512");
     VR.cls(c.how ? "save.readable" : "save.compact");
-    VR.cls(c.loc == 0 ? "locale.classic" : c.loc == 1 ? "locale.comma-stream" : "locale.comma-stream+global");
+    if (c.loc == 0) VR.cls("locale.classic");
+    else {
+        VR.cls(c.loc == 1 ? "locale.path=stream" : "locale.path=stream+global");
+        VR.cls(std::string("locale.decimal=") + (c.sp.decimal() == '.' ? "." : c.sp.decimal() == ',' ? "," : "other") + ",grouping=" + (c.sp.grouping().empty() ? "off" : "on"));
+        VR.cls(std::string("locale.sep=") + (c.sp.sep() == ' ' ? "blank" : std::string(1, c.sp.sep())));
+        { static const char *gn[] = {"none", "3", "2", "3-2", "1"}; VR.cls(std::string("locale.grouping=") + gn[c.sp.grp % 5]); }
+        if (c.sp.names) VR.cls("locale.truename-changed");
+        if (c.sp.extra & 1) VR.cls("locale.ctype-changed");
+        if (c.sp.extra & 2) VR.cls("locale.num_put-changed");
+    }
+    std::locale loc = c.loc ? make_locale(c.sp) : std::locale::classic();
+    std::string lname = c.loc == 0 ? "classic" : c.sp.name() + (c.loc == 2 ? " (also global)" : "");
     if (tf.control) VR.cls("tree.control-char-string");
     if (tf.astral) VR.cls("tree.astral-string");
     if (tf.nonascii) VR.cls("tree.non-ascii-string");
@@ -162,19 +189,21 @@ static Outcome p_roundtrip(RT const &c) {
 
     int how = c.how ? json::readable : json::compact;
     std::string s;
-    { GlobalLocale g(c.loc == 2); s = v.save(how); }
+    { GlobalLocale g(c.loc == 2, loc); s = v.save(how); }
     {
         std::ostringstream os;
-        if (c.loc >= 1) os.imbue(comma_locale());
+        os.imbue(loc);
         v.save(os, how);
         V_CHECK(os.good(), "write:stream-failed", "save(ostream) left the stream in a failed state");
-        V_CHECK(os.str() == s, "write:stream-locale-changes-output", "save(ostream) under locale mode " + std::to_string(c.loc) + " gives " + vr::show(os.str(), 200) + ", save() gives " + vr::show(s, 200));
+        V_CHECK(os.getloc() == loc, "write:stream-locale-not-restored", "after save(ostream) the stream has another locale than before; locale " + lname);
+        V_CHECK(os.str() == s, "write:stream-locale-changes-output", "save(ostream) under locale [" + lname + "] gives " + vr::show(os.str(), 200) + ", save() gives " + vr::show(s, 200));
     }
     if (how == json::compact) {
         std::ostringstream os;
-        if (c.loc >= 1) os.imbue(comma_locale());
+        os.imbue(loc);
         os << v;
-        V_CHECK(os.str() == s, "write:stream-locale-changes-output", "operator<< under locale mode " + std::to_string(c.loc) + " gives " + vr::show(os.str(), 200) + ", save() gives " + vr::show(s, 200));
+        V_CHECK(os.getloc() == loc, "write:stream-locale-not-restored", "after operator<< the stream has another locale than before; locale " + lname);
+        V_CHECK(os.str() == s, "write:stream-locale-changes-output", "operator<< under locale [" + lname + "] gives " + vr::show(os.str(), 200) + ", save() gives " + vr::show(s, 200));
     }
     // the text is a strict RFC 8259 document with the same content
     Parsed q = parse(s, true);
@@ -184,10 +213,11 @@ static Outcome p_roundtrip(RT const &c) {
     // cppcms reads its own output: exactly what the reference reads
     json::value v1;
     {
-        GlobalLocale g(c.loc == 2);
+        GlobalLocale g(c.loc == 2, loc);
         std::istringstream in(s);
-        if (c.loc >= 1) in.imbue(comma_locale());
+        in.imbue(loc);
         bool r = v1.load(in, true);
+        V_CHECK(in.getloc() == loc, "parse:stream-locale-not-restored", "after load(istream) the stream has another locale than before; locale " + lname);
         V_CHECK(r, "parse:rejects-own-output", "load() refuses the output of save(): " + vr::show(s, 300));
     }
     Node n1;
@@ -207,7 +237,7 @@ static Outcome p_roundtrip(RT const &c) {
     Parsed q2 = parse(other, true);
     V_CHECK(q2.strict_accept(), "write:output-not-json:" + why_not_json(q2), "other layout: " + vr::show(other, 300));
     V_CHECK(same(q.root, q2.root, true, why), "write:compact-and-readable-differ", why);
-    if (VR.want_sample()) VR.sample(std::string(c.how ? "readable" : "compact") + " loc" + std::to_string(c.loc) + " depth" + std::to_string(depth) + " " + vr::show(s, 140));
+    if (VR.want_sample()) VR.sample(std::string(c.how ? "readable" : "compact") + " [" + lname + "] depth" + std::to_string(depth) + " " + vr::show(s, 140));
     return ok();
 }
 
@@ -338,10 +368,19 @@ static Outcome p_extract(EX const &c) {
 // ---- generators -----------------------------------------------------------------------------------------------------------------------
 static rc::Gen<RT> gen_rt() {
     return rc::gen::exec([] {
+        static const bool global_unit = vr::env("C11_GLOBAL") == "1";   // the dedicated unit that also swaps the *global* locale
         RcSrc s; GenOpts o; o.text_numbers = false; o.avoid_unprintable = true;
+        RT c;
+        c.how = s.range(0, 1);
+        c.loc = global_unit ? 2 : (s.range(0, 5) == 0 ? 0 : 1);
+        if (c.loc) {
+            c.sp.dp = s.range(0, 2); c.sp.ts = s.range(0, 3); c.sp.grp = s.range(0, 4); c.sp.names = s.range(0, 1);
+            c.sp.extra = s.range(0, 3) == 0 ? s.range(1, 3) : 0;
+        }
+        o.grouped_pct = c.loc ? 45 : 15;
         Gen<RcSrc> g(s, o);
         Node M = g.tree(MAX_DEPTH);
-        RT c; c.model = dump(M); c.how = s.range(0, 1); c.loc = s.range(0, 2); c.route = g.bits64();
+        c.model = dump(M); c.route = g.bits64();
         return c;
     });
 }
@@ -418,8 +457,33 @@ static int regress(const char *file) {
     return good ? 0 : 1;
 }
 
+// every combination of the locale dimension once (x compact/readable x stream / stream+global) over a fixed tree that holds numbers with
+// 4..16 integer digits (top level of an array, object members, deep inside arrays, negative, with fraction) and controls (exponent form, < 1000)
+static int grid() {
+    vr::install_crash_hooks();
+    const char *text =
+        "{\"a\":[1000,1,-1234567,[[[[98765.25,{\"deep\":[9999999999999998,-1000.5,1e15]}]]]],999,0.5,1e16,1e300,-2.5e-7,true,false,null],"
+        "\"big\":123456789012,\"neg\":-40000,\"s\":\"1,000.5\",\"small\":12,\"t\":true,\"u\":{\"k\":[10000,[100000,[1000000]]]}}";
+    Parsed p = parse(text, true);
+    if (!p.strict_accept()) { printf("grid tree unreadable\n"); return 3; }
+    bool good = true;
+    VR.disjoint = true;
+    for (int loc = 1; loc <= 2; loc++) for (int how = 0; how < 2; how++)
+    for (int dp = 0; dp < 3; dp++) for (int ts = 0; ts < 4; ts++) for (int grp = 0; grp < 5; grp++) for (int names = 0; names < 2; names++) for (int extra = 0; extra < 4; extra++) {
+        RT c; c.model = dump(p.root); c.how = how; c.loc = loc;
+        c.sp.dp = dp; c.sp.ts = ts; c.sp.grp = grp; c.sp.names = names; c.sp.extra = extra;
+        c.route = 0x1234567ULL * (dp + 3 * ts + 12 * grp + 60 * names + 120 * extra + 1);
+        VR.cls("grid.cases");
+        good = vr::run_direct("roundtrip", c, p_roundtrip) && good;
+    }
+    { RT c; c.model = dump(p.root); VR.cls("grid.cases"); good = vr::run_direct("roundtrip", c, p_roundtrip) && good; }
+    VR.finish();
+    return good ? 0 : 1;
+}
+
 int main(int argc, char **argv) {
     if (argc == 4 && !strcmp(argv[1], "--refdump")) return refdump(argv[2], argv[3]);
+    if (argc == 2 && !strcmp(argv[1], "--grid")) return grid();
     if (argc == 3 && !strcmp(argv[1], "--regress")) return regress(argv[2]);
     VR.max_samples = 2;
     std::vector<std::unique_ptr<vr::PropBase>> props;
